@@ -124,6 +124,20 @@ def _c20_stray(v, rec):
     return False
 
 
+@mechanism("C09-bpi-accepts-lp-solutions-at-solver-noise-level")
+def _c09_lp_noise(v, rec):
+    """FSCBoundedPolicyIteration.train_on raises AssertionError from one of its own consistency assertions (row
+    normalisation in improve_node_matrix_constraint / assert_value_improvement), and the last LP solution it was handed
+    had its objective or an action weight between numpy.isclose's 1e-8 and the LP solver's 1e-7..1e-6 tolerance band."""
+    f = v.get("facts", {})
+    if v["clause"] != "exception:FSCBoundedPolicyIteration.train_on" or f.get("exc_type") != "AssertionError":
+        return False
+    where = " ".join(f.get("where", []))
+    if "improve_node_matrix_constraint" not in where and "assert_value_improvement" not in where:
+        return False
+    return bool(f.get("last_lp_solution_at_solver_noise_level"))
+
+
 @mechanism("C09-fsc-evaluation-ignores-absorbing-states")
 def _c09_abs(v, rec):
     """stochastic_fsc_policy_evaluation_exact (and so the values reported by gradient ascent / bounded
